@@ -350,6 +350,222 @@ def check_doc(kind, ta, tb, acc, tmpdir, leaves, readers=None):
                     judge('SaxDocument.save+SaxDocument', p, byid[i], True, case)
 
 
+# ---------------------------------------------------------------------------------------------------------
+# Options of the readers: a document with EVERY element kind several times as siblings (two of each kind at the
+# top level and in g1, one in g2 and g3, every one with an own transform that differs from its neighbours'),
+# read with non-default group_filter / path_filter / path_conversions / recursive / group-by-name, and with every
+# combination of svg2paths' convert_* flags.  The reference selects the expected elements itself.
+MIXED_KINDS = ['path_lines', 'path_cubic', 'line', 'polyline_open', 'polygon_open', 'rect_plain', 'rect_rx_ry', 'circle', 'ellipse']
+FLAG_OF_TAG = {'circle': 'convert_circles_to_paths', 'ellipse': 'convert_ellipses_to_paths', 'line': 'convert_lines_to_paths',
+               'polyline': 'convert_polylines_to_paths', 'polygon': 'convert_polygons_to_paths', 'rect': 'convert_rectangles_to_paths'}
+
+
+def build_mixed_doc(variant):
+    recs = []
+    own_pool = [t for t in TRANSFORMS[:14] if t]
+    counter = [variant]
+
+    def leaf(kind, chain, groups):
+        tag, at = LEAVES[kind]
+        k = len(recs)
+        own = own_pool[(counter[0] + 5 * k) % len(own_pool)] if k % 4 != 3 else None
+        a = dict(at)
+        a['id'] = 'm%d' % k
+        if own:
+            a['transform'] = own
+        recs.append({'id': a['id'], 'tag': tag, 'kind': kind, 'attrib': dict(at), 'chain': [t for t in chain + [own] if t], 'groups': groups})
+        return '<%s%s/>' % (tag, attrs(a))
+    ta, tb, tc = own_pool[variant % len(own_pool)], own_pool[(variant + 4) % len(own_pool)], own_pool[(variant + 9) % len(own_pool)]
+    xml = '<?xml version="1.0"?>\n<svg xmlns="%s" width="100" height="100" viewBox="0 0 100 100">' % NS
+    for rep in range(2):
+        xml += ''.join(leaf(k, [], []) for k in MIXED_KINDS)
+    xml += '<g id="g1" transform="%s">' % ta
+    for rep in range(2):
+        xml += ''.join(leaf(k, [ta], ['g1']) for k in MIXED_KINDS)
+    xml += '<g id="g2" transform="%s">' % tb + ''.join(leaf(k, [ta, tb], ['g1', 'g2']) for k in MIXED_KINDS) + '</g></g>'
+    xml += '<g id="g3" transform="%s">' % tc + ''.join(leaf(k, [tc], ['g3']) for k in MIXED_KINDS) + '</g>'
+    xml += '</svg>'
+    return xml, recs
+
+
+def path_filters(recs):
+    """name -> set of rejected ids"""
+    out = {'accept_all_explicitly': set()}
+    out['reject_every_other'] = {r['id'] for i, r in enumerate(recs) if i % 2 == 0}
+    out['reject_first_of_each_kind_in_each_group'] = set()
+    seen = set()
+    for r in recs:
+        key = (r['kind'], tuple(r['groups']))
+        if key not in seen:
+            seen.add(key)
+            out['reject_first_of_each_kind_in_each_group'].add(r['id'])
+    out['reject_all_but_last_of_each_kind_in_each_group'] = set()
+    last = {}
+    for r in recs:
+        last[(r['kind'], tuple(r['groups']))] = r['id']
+    out['reject_all_but_last_of_each_kind_in_each_group'] = {r['id'] for r in recs} - set(last.values())
+    out['reject_untransformed'] = {r['id'] for r in recs if not r['chain']}
+    out['reject_everything'] = {r['id'] for r in recs}
+    return out
+
+
+def check_options(variant, acc, tmpdir, only=None):
+    from svgpathtools.document import CONVERSIONS, CONVERT_ONLY_PATHS
+    from svgpathtools import svg2paths2
+    from svgpathtools.svg_to_paths import svgstr2paths
+    xml, recs = build_mixed_doc(variant)
+    fn = os.path.join(tmpdir, 'mixed.svg')
+    with open(fn, 'w') as f:
+        f.write(xml)
+    byid = {r['id']: r for r in recs}
+
+    def judge_set(reader, sig, case, paths_with_ids, expected_ids, with_tf):
+        ids = sorted(i for i, _ in paths_with_ids)
+        if ids != sorted(expected_ids):
+            acc.violation('wrong_set_of_elements', sig, case, observed={'unexpected': sorted(set(ids) - set(expected_ids)), 'missing': sorted(set(expected_ids) - set(ids)),
+                                                                        'duplicates': sorted(i for i in set(ids) if ids.count(i) > 1)})
+            return
+        for i, p in paths_with_ids:
+            rec = byid[i]
+            polys = ref_polylines(rec, with_tf)
+            size = max(max(abs(z) for pl in polys for z in pl), 1.0)
+            if not isinstance(p, Path) or len(p) == 0:
+                acc.violation('not_a_path', dict(sig, element=rec['tag']), dict(case, id=i), observed=repr(p)[:200])
+                return
+            m = geometry_matches(p, polys, size)
+            if m:
+                acc.violation('geometry_differs_from_reference', dict(sig, element=rec['tag']), dict(case, id=i), observed=m,
+                              expected='reference shape %s chain %r' % (rec['tag'], rec['chain']))
+                return
+
+    convs = {'default_given_explicitly': dict(CONVERSIONS), 'only_paths': CONVERT_ONLY_PATHS}
+    for k in CONVERSIONS:
+        convs['without_' + k] = {kk: v for kk, v in CONVERSIONS.items() if kk != k}
+    convs['only_polygon_and_circle'] = {kk: v for kk, v in CONVERSIONS.items() if kk in ('polygon', 'circle')}
+    gfilters = {'accept_all_explicitly': set(), 'reject_g1': {'g1'}, 'reject_g2': {'g2'}, 'reject_g3': {'g3'}, 'reject_g1_g3': {'g1', 'g3'}}
+    pfilters = path_filters(recs)
+    # ---- Document.paths(group_filter, path_filter, path_conversions)
+    for gname, grej in gfilters.items():
+        for pname, prej in pfilters.items():
+            for cname, conv in convs.items():
+                if cname not in ('default_given_explicitly', 'only_paths', 'without_polyline') and (gname != 'accept_all_explicitly' and pname != 'accept_all_explicitly'):
+                    continue
+                for how in ('keyword', 'positional'):
+                    case = {'what': 'options', 'variant': variant, 'reader': 'Document.paths', 'group_filter': gname, 'path_filter': pname, 'path_conversions': cname, 'how': how}
+                    if only and only != {k: v for k, v in case.items()}:
+                        continue
+                    acc.case(case, cls='options/Document.paths/%s' % how)
+                    gf = lambda e, grej=grej: e.get('id') not in grej
+                    pf = lambda e, prej=prej: e.get('id') not in prej
+                    exp = [r['id'] for r in recs if r['id'] not in prej and r['tag'] in conv and not (set(r['groups']) & grej)]
+                    # a rejected group hides its descendants
+                    with warnings.catch_warnings():
+                        warnings.simplefilter('ignore')
+                        if how == 'keyword':
+                            r = outcome(lambda: Document(fn).paths(group_filter=gf, path_filter=pf, path_conversions=conv))
+                        else:
+                            r = outcome(lambda: Document(fn).paths(gf, pf, conv))
+                    sig = {'reader': 'Document.paths', 'options': sorted(n for n, v in (('group_filter', gname), ('path_filter', pname), ('path_conversions', cname))
+                                                                         if not v.endswith('explicitly'))}
+                    if r[0] != 'ok':
+                        acc.violation('reader_raises', dict(sig, exc=r[1]), case, observed=r)
+                        continue
+                    judge_set('Document.paths', sig, case, [(p.element.get('id'), p) for p in r[1]], exp, True)
+    # ---- Document.paths_from_group(group, recursive, group_filter, path_filter, path_conversions)
+    for gsel, gpath in (('g1', ['g1']), ('g2', ['g1', 'g2']), ('g3', ['g3']), ('root', None)):
+        for by in ('element', 'names'):
+            if gpath is None and by == 'names':
+                continue
+            for recursive in (True, False):
+                for pname in ('accept_all_explicitly', 'reject_every_other', 'reject_first_of_each_kind_in_each_group'):
+                    for gname in ('accept_all_explicitly', 'reject_g2'):
+                        for cname in ('default_given_explicitly', 'without_polyline'):
+                            case = {'what': 'options', 'variant': variant, 'reader': 'Document.paths_from_group', 'group': gsel, 'group_given_by': by, 'recursive': recursive,
+                                    'group_filter': gname, 'path_filter': pname, 'path_conversions': cname}
+                            if only and only != case:
+                                continue
+                            acc.case(case, cls='options/Document.paths_from_group/%s' % ('recursive' if recursive else 'not_recursive'))
+                            prej, grej, conv = pfilters[pname], gfilters[gname], convs[cname]
+                            gf = lambda e, grej=grej: e.get('id') not in grej
+                            pf = lambda e, prej=prej: e.get('id') not in prej
+
+                            def inside(rec):
+                                if gpath is None:
+                                    return True if recursive else not rec['groups']
+                                if recursive:
+                                    return rec['groups'][:len(gpath)] == gpath
+                                return rec['groups'] == gpath
+                            exp = [r_['id'] for r_ in recs if inside(r_) and r_['id'] not in prej and r_['tag'] in conv and not (set(r_['groups']) & grej)]
+
+                            def run():
+                                d = Document(fn)
+                                if by == 'names':
+                                    grp = list(gpath)
+                                elif gpath is None:
+                                    grp = d.tree.getroot()
+                                else:
+                                    grp = [e for e in d.tree.getroot().iter('{%s}g' % NS) if e.get('id') == gsel][0]
+                                kw = {}
+                                if pname != 'accept_all_explicitly':
+                                    kw['path_filter'] = pf
+                                if gname != 'accept_all_explicitly':
+                                    kw['group_filter'] = gf
+                                if cname != 'default_given_explicitly':
+                                    kw['path_conversions'] = conv
+                                return d.paths_from_group(grp, recursive, **kw) if not recursive or kw else d.paths_from_group(grp, recursive=recursive)
+                            with warnings.catch_warnings():
+                                warnings.simplefilter('ignore')
+                                r = outcome(run)
+                            sig = {'reader': 'Document.paths_from_group', 'group': gsel, 'recursive': recursive,
+                                   'options': sorted(n for n, v in (('group_filter', gname), ('path_filter', pname), ('path_conversions', cname)) if not v.endswith('explicitly'))}
+                            if r[0] != 'ok':
+                                acc.violation('reader_raises', dict(sig, exc=r[1]), case, observed=r)
+                                continue
+                            judge_set('Document.paths_from_group', sig, case, [(p.element.get('id'), p) for p in r[1]], exp, True)
+    # ---- svg2paths / svg2paths2 / svgstr2paths with every combination of the convert_* flags
+    flags = sorted(set(FLAG_OF_TAG.values()))
+    for bits in itertools.product((True, False), repeat=len(flags)):
+        kw = dict(zip(flags, bits))
+        for fname in ('svg2paths', 'svg2paths2', 'svgstr2paths', 'svg2paths_positional'):
+            for rsa in (False, True):
+                if fname != 'svg2paths' and (rsa or sum(1 for b in bits if not b) > 2):
+                    continue
+                case = {'what': 'options', 'variant': variant, 'reader': fname, 'flags_off': sorted(k for k, v in kw.items() if not v), 'return_svg_attributes': rsa}
+                if only and only != case:
+                    continue
+                acc.case(case, cls='options/%s/%d_off' % (fname, len(case['flags_off'])))
+                exp = [r_['id'] for r_ in recs if kw.get(FLAG_OF_TAG.get(r_['tag']), True)]
+
+                def run():
+                    if fname == 'svg2paths':
+                        return svg2paths(fn, return_svg_attributes=rsa, **{k: v for k, v in kw.items() if not v})
+                    if fname == 'svg2paths2':
+                        return svg2paths2(fn, **{k: v for k, v in kw.items() if not v})
+                    if fname == 'svgstr2paths':
+                        return svgstr2paths(xml, **kw)
+                    return svg2paths(fn, False, kw['convert_circles_to_paths'], kw['convert_ellipses_to_paths'], kw['convert_lines_to_paths'],
+                                     kw['convert_polylines_to_paths'], kw['convert_polygons_to_paths'], kw['convert_rectangles_to_paths'])
+                with warnings.catch_warnings():
+                    warnings.simplefilter('ignore')
+                    r = outcome(run)
+                sig = {'reader': fname, 'flags_off': case['flags_off'], 'return_svg_attributes': rsa}
+                if r[0] != 'ok':
+                    acc.violation('reader_raises', dict(sig, exc=r[1]), case, observed=r)
+                    continue
+                want_three = rsa or fname == 'svg2paths2'
+                if len(r[1]) != (3 if want_three else 2):
+                    acc.violation('wrong_shape_of_result', sig, case, observed=len(r[1]), expected=3 if want_three else 2)
+                    continue
+                if want_three and (not isinstance(r[1][2], dict) or r[1][2].get('viewBox') != '0 0 100 100' or r[1][2].get('width') != '100'):
+                    acc.violation('svg_attributes_wrong', sig, case, observed=repr(r[1][2])[:200], expected={'viewBox': '0 0 100 100', 'width': '100'})
+                    continue
+                paths, atts = r[1][0], r[1][1]
+                if len(paths) != len(atts):
+                    acc.violation('paths_and_attributes_differ_in_number', sig, case, observed=[len(paths), len(atts)])
+                    continue
+                judge_set(fname, sig, case, [(a.get('id'), p) for p, a in zip(paths, atts)], exp, False)
+
+
 def tier_leaves(tier):
     d = dict(LEAVES)
     d.update(THOROUGH_LEAVES)
@@ -361,13 +577,17 @@ def tier_transforms(tier):
 
 
 def shards(tier, seed):
-    return [{'kind': k, 'ta': ta} for k in tier_leaves(tier) for ta in tier_transforms(tier)]
+    return [{'kind': k, 'ta': ta} for k in tier_leaves(tier) for ta in tier_transforms(tier)] + \
+        [{'what': 'options', 'variant': v} for v in range(4 if tier == 'quick' else 13)]
 
 
 def run_shard(desc, tier, seed):
     acc = core.Acc()
     tmp = tempfile.mkdtemp(prefix='verif_c17_')
     try:
+        if desc.get('what') == 'options':
+            check_options(desc['variant'], acc, tmp)
+            return acc
         for tb in tier_transforms(tier):
             check_doc(desc['kind'], desc['ta'], tb, acc, tmp, tier_leaves(tier))
     finally:
@@ -380,7 +600,11 @@ def expected_classes(tier):
 
 
 def space(tier, seed):
-    return {'leaf_kinds': list(tier_leaves(tier)), 'transform_alphabet': tier_transforms(tier),
+    return {'options_family': {'document': 'every kind of %r twice at top level and in g1, once in g2 (inside g1) and g3, own transforms differing between neighbours' % MIXED_KINDS,
+                               'Document.paths': 'group_filter x path_filter x path_conversions (keyword and positional)',
+                               'Document.paths_from_group': 'group {g1,g2,g3,root} x given by {element, list of names} x recursive {True,False} x filters x conversions',
+                               'svg2paths': 'all 64 combinations of the six convert_* flags x return_svg_attributes; svg2paths2, svgstr2paths, positional flags with <= 2 flags off'},
+            'leaf_kinds': list(tier_leaves(tier)), 'transform_alphabet': tier_transforms(tier),
             'tree': 'svg > [leaf0, g1(ta) > [leaf1, g2(tb) > [leaf2]], g3(tc) > [leaf3]]; (ta, tb) all pairs; tc and own transforms rotate through the alphabet',
             'readers': ['Document.paths', 'Document.paths_from_group (g1, g2, g3)', 'svg2paths', 'SaxDocument.flatten_all_paths']}
 
@@ -391,6 +615,9 @@ def replay(case):
     try:
         leaves = dict(LEAVES)
         leaves.update(THOROUGH_LEAVES)
+        if case.get('what') == 'options':
+            check_options(case['variant'], acc, tmp, only={k: v for k, v in case.items() if k != 'id'})
+            return acc.vlist
         check_doc(case['kind'], case['ta'], case['tb'], acc, tmp, leaves, readers=[case['reader']])
         if 'group' in case:
             acc.vlist = [v for v in acc.vlist if v['case'].get('group') == case['group']]
